@@ -47,7 +47,7 @@ def check(an: Analysis) -> None:
     for n in grouped:
         ob.inst(run, n.ast, "group create_task")
         recv = n.ast.func.value  # type: ignore[union-attr]
-        if "call:contextvars.ContextVar.get" not in deps.of(recv):
+        if "call:contextvars.ContextVar.get" not in deps.origins(recv):
             ob.fail(run, n.ast, "the task group is not the one read from the context variable")
         else:
             gets = [c for c in ast.walk(recv) if isinstance(c, ast.Call) and an.callee(run, c) == "contextvars.ContextVar.get"]
